@@ -35,7 +35,7 @@ Theorem C03_names_agree_module_partial :
     py_exec prog = Some e -> shadow_guard prog = true ->
     NoDup (keys (m_contents (doc_walk clean prog))) /\
     forall n, In n (keys (m_contents (doc_walk clean prog))) <-> pdef n e = true.
-Proof. intros clean prog e H1 H2. exact (agree_keys_module clean _ _ (module_simulation clean prog e H1 H2)). Qed.
+Proof. intros clean prog e H1 H2. exact (agree_keys_module clean false _ _ (module_simulation clean prog e H1 H2)). Qed.
 
 (* every class Python binds is documented as a class under that name (so ns_at reaches every class namespace) *)
 Theorem C03_classes_reached_partial :
@@ -122,6 +122,29 @@ Proof. split; reflexivity. Qed.
 Theorem C03_infer_type_sound :
   forall v t, annotation_for_value v = Some t -> denotes t v.
 Proof. exact annotation_for_value_sound. Qed.
+
+(* program level: in the strict subset (py_exec_strict = py_exec minus programs that unpack a tuple into a name holding a
+   literal value -- the exact trigger of the known finding, C03_infer_stale_after_unpacking_refuted), the literal pydoctor
+   remembers for a variable of any namespace (Attribute.value, from which infer_type computes the annotation when the
+   variable has no explicit one) is the literal whose value CPython has bound to that name: last binding wins on both sides.
+   Together with C03_infer_type_sound: the inferred annotation denotes type(value).  Instance variables are excepted
+   (their value is set in methods). *)
+Theorem C03_infer_type_program_partial :
+  forall (clean : text -> text) prog e sc c' e' n k d an l pv,
+    py_exec_strict prog = Some e -> shadow_guard prog = true ->
+    ns_at (m_contents (doc_walk clean prog)) e sc c' e' ->
+    lookup n c' = Some (OAttr k d an (Some (AvLit l))) -> k <> KInstanceVar ->
+    plookup n e' = Some (VData pv) ->
+    pv = Some l /\ forall t, annotation_for_value l = Some t -> denotes t l.
+Proof.
+  intros clean prog e sc c' e' n k d an l pv H1 H2 H3 H4 H5 H6. split.
+  - exact (stored_literal_is_bound clean prog e sc c' e' n k d an l pv H1 H2 H3 H4 H5 H6).
+  - intros t Ht. exact (annotation_for_value_sound l t Ht).
+Qed.
+
+(* the strict subset is a subset: same bindings *)
+Theorem C03_strict_subset : forall prog e, py_exec_strict prog = Some e -> py_exec prog = Some e.
+Proof. exact py_exec_strict_lax. Qed.
 
 (* a subscript is produced for non-empty containers only: empty containers give the bare name *)
 Theorem C03_infer_type_empty_bare :
@@ -226,9 +249,10 @@ Definition w_unpack : list stmt :=
   [Assign [TName nx] (RLit (LStr nA)); Assign [TTuple [nx; ny]] (RLit (LTuple [LInt 1; LInt 2]))].
 
 Theorem C03_infer_stale_after_unpacking_refuted :
+  py_exec_strict w_unpack = None /\
   exists e, py_exec w_unpack = Some e /\ plookup nx e = Some (VData None) /\
             exists k d v, lookup nx (m_contents (doc_walk idc w_unpack)) = Some (OAttr k d (Some (AName t_str)) v).
-Proof. eexists. split; [lazy; reflexivity|]. split; [reflexivity|]. repeat eexists. Qed.
+Proof. split; [reflexivity|]. eexists. split; [lazy; reflexivity|]. split; [reflexivity|]. repeat eexists. Qed.
 
 (* outside the agreed subset: a def in an else: / finally: suite is not walked (NodeVisitor.get_children yields .body only) *)
 Definition w_orelse : list stmt := [Try [Other] [] [Def nf [] false []] [Def ng [] false []]].
